@@ -304,6 +304,23 @@ func c03Directed() []struct {
 			}
 		}
 	}
+	// property IDs that are digits only, and input maps whose keys are the same digits as numbers: a key that is not a
+	// string is not a property ID, whatever it would print as
+	for _, req := range []bool{true, false} {
+		obj := &gen.Shape{Kind: gen.KObject, ID: "Digits", Props: []*gen.Prop{
+			{Name: "1", T: intT(), Required: req}, {Name: "42", T: &gen.Shape{Kind: gen.KString}}, {Name: "0", T: &gen.Shape{Kind: gen.KBool}}, {Name: "007", T: intT()}}}
+		out = append(out, struct {
+			shape *gen.Shape
+			raws  []any
+		}{obj, []any{
+			map[string]any{"1": int64(5)}, map[string]any{"1": int64(5), "42": "x", "0": true, "007": int64(7)}, map[any]any{"1": int64(5), "42": "x"},
+			map[any]any{int64(1): int64(5)}, map[any]any{int(1): int64(5)}, map[any]any{uint8(1): int64(5)}, map[any]any{uint64(1): int64(5), "42": "x"},
+			map[any]any{"1": int64(5), int64(42): "x"}, map[any]any{"1": int64(5), int64(1): int64(6)}, map[any]any{"1": int64(5), int64(0): true},
+			map[any]any{"1": int64(5), int64(7): int64(7)}, map[any]any{"1": int64(5), 1.0: int64(7)},
+			map[int]any{1: int64(5)}, map[int64]any{1: int64(5)}, map[int]any{42: "x"}, map[uint8]string{42: "x"}, map[int]int64{1: 5, 7: 7}, map[uint64]any{0: true},
+			map[any]any{}, map[int]any{},
+		}})
+	}
 	return out
 }
 
